@@ -17,7 +17,10 @@ def main(argv):
     from .common import Ctx
     from .plans import plan
 
-    logging.disable(logging.CRITICAL)
+    if case is not None and os.environ.get("VERIF_DEBUG"):
+        logging.basicConfig(level=logging.DEBUG, stream=sys.stderr)
+    else:
+        logging.disable(logging.CRITICAL)
     os.environ.setdefault("TQDM_DISABLE", "1")
     t0 = time.monotonic()
     p = plan(pid, tier)
